@@ -253,7 +253,7 @@ def parse_operations( tags, fragment=False, int_type=None, **kwds ):
 
         # If a count of elements is defined, save it; Otherwise, deduce it from values (write_tag),
         # or leave it unset and use the method default (usually 1) if necessary (read_tag/frag)
-        seg,elm,cnt		= device.parse_path_elements( tag )
+        seg,elm,cnt		= device.parse_path_elements( tag.strip() )
         opr['path']		= seg
         if cnt is not None:
             opr['elements']	= cnt
